@@ -57,7 +57,8 @@ CHECKS = {
         engine="Z", category="other",
         text="bounded symbolic verification: the seven real closed-form functions are executed on z3-backed dual numbers (value and "
              "d/dt), and z3 (NRA, after sound UF normalisation) proves d/dt f = documented rate equation and f(0) = stated initial "
-             "concentration for ALL positive parameters and t >= 0; a solver model is turned into a concrete witness and replayed "
+             "concentration for ALL positive parameters and t >= 0; on a time grid (array of symbolic instants) the result equals the "
+             "scalar evaluation, leaves the caller's array untouched and is the same on a second evaluation; a solver model is turned into a concrete witness and replayed "
              "through the public API with sympy before it is reported",
         note="identity over the reals (float rounding outside); domain assumptions listed in evidence (major>minor for binary_irrev, "
              "|atanh arg|<1 for binary_irrev_cstr); trusted: z3, the chain rules in vlib/dual.py and the ground facts about "
@@ -136,7 +137,8 @@ CHECKS["C06"] = dict(
     text="bounded symbolic verification of the ONE solver-checkable sentence of C06 - the advertised safe explicit-Euler step: the real "
          "closure returned by get_odesys is executed with a symbolic state y >= 0 and an ARBITRARY symbolic derivative vector (f_cb "
          "stubbed), upper bounds from the real upper_conc_bounds (infinite for species without elemental composition); z3 proves "
-         "0 <= h <= 1 and 0 <= y_i + h*f_i <= ub_i on every path",
+         "0 <= h <= 1 and 0 <= y_i + h*f_i <= ub_i on every path, for the answer to a query that follows an earlier query of the same "
+         "callback for another state and for the same query repeated on the caller's own array",
     note="NOT claimed (not applicable to this technique): agreement of integrated trajectories with matrix exponentials / closed forms, "
          "non-negativity of integrated trajectories - these run inside LSODA/CVODE through pyodesys where no symbolic value survives; "
          "stubs: odesys.to_arrays/pre_process identity, f_cb arbitrary reals, upper_conc_bounds called with dtype=object; systems with "
@@ -148,7 +150,9 @@ CHECKS["C08"] = dict(
     text="bounded symbolic verification of the predicates behind 'success and sane' only: _result_is_sane(c0, x) on symbolic x and c0 "
          "returns True <=> (x >= 0 and x <= (1+1e-9)*min_e(total_e/atoms_e)), with the bound written independently from the compositions; "
          "dissolved(x) removes the solid and conserves every element and charge; the forward/backward precipitation switching conditions "
-         "are equivalent to the Ksp comparison of the statement in both orientations of the dissolution equilibrium",
+         "are equivalent to the Ksp comparison of the statement in both orientations of the dissolution equilibrium (phase-transfer "
+         "reaction first or not); the concentrations REPORTED for a solver variable y (post_processor of each NumSys class) equal the "
+         "substitution c = g(y) under which C07 proves the residuals",
     note="NOT claimed (not applicable to this technique): that a converged numerical root satisfies Q=K / conservation to tolerance, the "
          "19-of-20 success rate, agreement with the brentq scalar solver - properties of MINPACK/KINSOL/scipy runs on floats; stub: "
          "upper_conc_bounds called with dtype=object; systems with <= 5 (thorough 7) species",
@@ -159,7 +163,8 @@ CHECKS["C10"] = dict(
     text="bounded symbolic verification of the dimension bookkeeping only: args_dimensionality of MassAction/Arrhenius/Eyring for a "
          "symbolic reaction order equals concentration^(1-order)/time (plus the documented temperature entries); get_derived_unit in a "
          "registry of free positive reals equals product(base^SI exponent) for every key; get_odesys(unit_registry=such a registry) "
-         "reports parameter units (p_units) consistent with them for orders 1..3 - for ALL registries",
+         "reports parameter units (p_units) consistent with them for orders 1..3 - for ALL registries; each query is repeated after the "
+         "others (no result depends on what was asked before)",
     note="NOT claimed (not applicable to this technique): a reaction accepts a unit-carrying rate constant iff its dimension is right "
          "(check_consistent_units) and registry independence of f_cb/integrate/output rescaling - these execute `quantities` arithmetic on "
          "floats, where no symbolic value survives",
@@ -170,7 +175,8 @@ CHECKS["C02"] = dict(
     text="bounded symbolic verification of ONE mechanism of C02 - the per-component presence pre-check: balance_stoichiometry runs on "
          "species with symbolic composition entries up to the construction of the sympy matrix; on every path ending in the pre-check's "
          "ValueError z3 proves that A*x = 0 has no solution with all x >= 1, i.e. the pre-check never refuses a placement that positive "
-         "coefficients can balance",
+         "coefficients can balance; on every path that reaches the solver the matrix handed to it is proved to be the full signed "
+         "composition matrix (one row per element and one for the net charge)",
     note="NOT claimed (outside the reach of this technique): that returned coefficients are balanced / positive / coprime / minimal, "
          "refusal of every unbalanceable placement (e.g. 'C + CO -> CO2' returns -1 on the pinned tree), duplicate handling - the code "
          "after the pre-check runs inside sympy.linsolve and the PuLP/CBC subprocess; r+p <= 4 species, <= 3 composition keys",
@@ -182,7 +188,8 @@ CHECKS["C11"] = dict(
          "operators on symbolic integer multipliers (-3..3) and symbolic coefficients (1..3) for all ordered pairs of 7 operand shapes "
          "(incl. a species on both sides of an operand); the constant is a value type recording the exponent of each operand's constant. "
          "z3 proves on every path: net stoichiometry = the integer combination, every listed coefficient > 0, netted form after +/-, "
-         "constant = product K_i^n_i. eliminate/cancel on solver-forked coefficient values |c| <= 6 (bounded exhaustive); as_reactions "
+         "constant = product K_i^n_i; the same object scaled twice and negation/difference before and after a param reassignment "
+         "(history). eliminate/cancel on solver-forked coefficient values |c| <= 6 (bounded exhaustive); as_reactions "
          "kb = kf/(K c0^dnu) on reals",
     note="stubs: chempy.chemistry.int -> identity on integer symbols; multiplier 0 / combinations netting to nothing raise ValueError "
          "(accepted, outside the quantifier); operands without inactive parts; chains of <= 3 operations (thorough 4)",
@@ -194,7 +201,8 @@ CHECKS["C20"] = dict(
          "integer - one z3 query proves for all 1..3999 that token values sum to n with canonical token counts; the LaTeX/Unicode/HTML "
          "power-of-ten renderers and the significand/exponent split of _number_to_X (formatter stubbed) are confirmed by CrossHair over "
          "all paths for every exponent -300..300 and nine significand spellings incl. '1', '1.0' and negative ones (omission rule, "
-         "exponent read back digit by digit)",
+         "exponent read back digit by digit); when the implementation of roman does not keep segment strings the same claim is decided "
+         "by solver-forked exploration (3999 paths); a concrete call-sequence sanity task (not solver evidence) covers unit placement",
     note="NOT claimed (not applicable): what '%.Ng' prints for a float and _float_str_w_uncert (log10/floor/round on floats, C "
          "formatting) - no symbolic float survives '%'; unit strings come from the `quantities` package",
     technique=Z + "; CrossHair (symbolic execution with z3) for the string renderers", ref="DESIGN.md section 5 C20")
